@@ -27,6 +27,14 @@ class Underflow(Exception):
     pass
 
 
+class BoomBase(BaseException):
+    """writing code may also be left by an exception that is not an `Exception` (SystemExit from a
+    fatal message, KeyboardInterrupt, GeneratorExit): the elements must be closed all the same"""
+
+
+RAISE_KINDS = (Boom, BoomBase, SystemExit, KeyboardInterrupt, GeneratorExit, Boom)
+
+
 def impl_setup():
     if REPO not in sys.path:
         sys.path.insert(0, REPO)
@@ -542,7 +550,7 @@ def gen_build_case(rng):
 
 
 # ------------------------------------------------------------------ running the real code
-def impl_exec(w, body):
+def impl_exec(w, body, boom=Boom):
     for st in body:
         k = st[0]
         if k == 'push':
@@ -561,10 +569,10 @@ def impl_exec(w, body):
             else:
                 w.disable_whitespace()
         elif k == 'raise':
-            raise Boom()
+            raise boom()
         elif k == 'ctx':
             with w.tagcontext(st[1], [tuple(a) for a in st[2]]):
-                impl_exec(w, st[3])
+                impl_exec(w, st[3], boom)
         else:
             raise ValueError(k)
 
@@ -592,9 +600,11 @@ def impl_run(xw, prog):
                 'utf8': ''}
     raised = False
     error = None
+    # which kind of exception the writing code raises varies with the program (deterministically)
+    boom = RAISE_KINDS[len(json.dumps(prog)) % len(RAISE_KINDS)]
     try:
-        impl_exec(w, prog)
-    except (Boom, IndexError):
+        impl_exec(w, prog, boom)
+    except (Boom, BoomBase, SystemExit, KeyboardInterrupt, GeneratorExit, IndexError):
         raised = True
     except Exception as e:  # noqa  -- the writer itself failed on this input
         raised = True
